@@ -1,4 +1,4 @@
-import VarproModel.Core.LM
+import VarproModel.Proofs.LMInv
 import Mathlib.Algebra.Order.Field.Basic
 import Mathlib.Tactic.Linarith
 import Mathlib.Tactic.Positivity
@@ -59,6 +59,15 @@ theorem c04_tests_budget (nm : Num K) (cfg : Config K) (st : St T K Vx) (a p r :
     · split at h
       · cases h
       · rename_i hlt; omega
+
+/-- **c04_budget**: the number of evaluations `fit` reports – and therefore the number of trial
+parameter applications the optimizer makes – never exceeds the budget `patience·(P+1)` of the
+configuration supplied (2 in the degenerate case of a budget below 2), and the model of the
+optimizer always terminates by itself. -/
+theorem c04_budget (P : LSP T K Vx Vr J) (o : Ops K Vx Vr J LLS) (nm : Num K) (cfg : Config K) (t : T) :
+    (minimize P o nm cfg t).2.termination ≠ .fuelExhausted ∧
+    (minimize P o nm cfg t).2.evaluations ≤ max (cfg.patience * (o.lenX (P.params t) + 1)) 2 :=
+  minimize_budget P o nm cfg t
 
 /-- **c04_fws**: `fit_with_statistics` returns the fit result as `Err` iff the fit failed, the
 coefficients are absent or the statistics could not be computed; otherwise `Ok` with the same fit
